@@ -79,6 +79,10 @@ def main():
             if "accumulation" in name:
                 return ("C12", "C13")
             return ("C12",)
+        if name.endswith("_observes"):
+            # queries and statistics refreshes of the Buffer / Fleet edges leave the store's lists alone
+            base = ("C11", "C14") if name.startswith("Fleet") else ("C11",)
+            return base + (("C03",) if ("update_final" in name or "stats_collector" in name) else ())
         if name == "ContBelt_is_stalled":
             return ("C13",)
         if name == "Machine_slot_before_index_draw":
